@@ -156,7 +156,8 @@ class _Scope(Contract):
                 return it.engine.default_await(it, aw, idx, node)
             except PyRaise as pr:
                 lab = st.labels[-1]
-                foreign_cancel = lab.endswith("cancelled-while-waiting") or lab.endswith("cancelled-while-waiting+member-failed")
+                foreign_cancel = lab.endswith(("cancelled-while-waiting", "cancelled-while-waiting+member-failed",
+                                               "earlier-request-delivered-while-waiting"))
                 self.raised.append(("taskgroup-exit", pr.val, foreign_cancel))
                 raise
         return NotImplemented
@@ -533,5 +534,7 @@ def extra_contracts():
     """Borrowed late (contracts/C08.py imports this module): the scope scenarios treat `Disposables.__aenter__` as a callee
     that leaves the caller's context variables alone - which holds because every disposable is entered in a gather child, a
     task with its own copy of the context (T-GATHER, T-CV)."""
-    from .C08 import Enter
-    return [variant(Enter, "C02", ("P6:",))]
+    from .C08 import Enter, Exit
+    # ... and `Disposables.__aexit__` as a callee that returns nothing truthy (it can never make the scope swallow the body's
+    # exception): its own clause P4
+    return [variant(Enter, "C02", ("P6:",)), variant(Exit, "C02", ("P4:never-suppresses",))]
